@@ -46,7 +46,7 @@ def mandatory_bins(tier):
     b = ["len_mod16_%d" % i for i in range(16)] + ["trailing_zeros_%d" % z for z in range(18)]
     b += ["all_zero_content", "via_set_config", "via_direct_construction", "framing_bf3", "framing_bec2", "needle_scan", "needle_session_key", "needle_security_code",
           "needle_customer_key", "needle_plaintext_block", "key_ends_00", "default_key", "cipher_unregistered", "cipher_fails_at_call", "cipher_fails_at_first_call",
-          "cipher_fails_at_last_call", "fault_stream", "fault_path", "read_back_with_key", "long_content", "content_longer_than_1024", "rewrite_after_content_change", "rewrite_after_in_place_content_change", "set_config_over_preexisting_plain_configuration", "target_is_a_file_name", "read_back_without_mac_check", "rewrite_of_a_read_back_object", "rewrite_under_another_key"]
+          "cipher_fails_at_last_call", "fault_stream", "fault_path", "read_back_with_key", "long_content", "content_longer_than_1024", "rewrite_after_content_change", "rewrite_after_in_place_content_change", "set_config_over_preexisting_plain_configuration", "target_is_a_file_name", "read_back_without_mac_check", "rewrite_of_a_read_back_object", "rewrite_under_another_key", "marked_for_encryption_after_construction"]
     return b
 
 
@@ -115,7 +115,16 @@ def check_case(ns, ctx, content, declared, key, framing, via, specs, conf, rp):
         ctx.bin("via_set_config")
     else:
         desc = [(0xC3, b"\x03"), (0xC2, b"\x02"), (0xC1, b"\x03")]
-        f.components.append(BF.Bf3Component(dict(desc), content, declared, encrypt_by_session_key=True))
+        if (len(content) + key[3]) % 4 == 2:
+            # marked for encryption AFTER construction (public attribute + tag), as a tool converting a plain component would do
+            comp_ = BF.Bf3Component({0xC3: b"\x03", 0xC1: b"\x03"}, content, declared)
+            comp_.description[0xC2] = b"\x02"
+            comp_.description = dict(desc)
+            comp_.encrypt_by_session_key = True
+            f.components.append(comp_)
+            ctx.bin("marked_for_encryption_after_construction")
+        else:
+            f.components.append(BF.Bf3Component(dict(desc), content, declared, encrypt_by_session_key=True))
         ctx.bin("via_direct_construction")
     ctx.bin("len_mod16_%d" % (len(content) % 16))
     tz = G.trailing_zeros(content)
